@@ -1,10 +1,214 @@
+/- Line-protocol commands of the control / extended-operation codecs (C19). Not part of any theorem.
+   ctl.enc <name> <fields…>      -> oid=<hex> crit=<0|1> val=<hex|none> | panic
+   ctl.parse <name> <hex|none>   -> canonical struct | panic      (syncinfo takes a tree)
+   ctl.build <oid> <0|1> <hex|none> -> tree of build_tag
+   ctls.parse <tree>             -> [known oid crit val;…] | none
+   exop.enc <name> <fields…>     -> name=<hex|none> val=<hex|none>
+   exop.parse <name> <hex|none>  -> canonical struct | panic
+   exop.construct <hex|none> <hex|none> -> trees | panic
+   spec.ctl.dec / spec.exop.dec <name> <hex|none> -> canonical struct by the RFC decoder | none -/
 import Ldap3V.Driver.Util
+import Ldap3V.Model.Codecs
+import Ldap3V.Spec.Codecs
 namespace Ldap3V.Driver
-open Ldap3V
+open Ldap3V Ldap3V.Codecs
+
+def optHex (s : String) : Option (Option Bytes) :=
+  if s == "none" then some none else (unhex s).map some
+
+def showOptHex : Option Bytes → String
+  | none => "none"
+  | some b => hexOf b
+
+def showBit (b : Bool) : String := if b then "1" else "0"
+
+def bitOf (s : String) : Option Bool :=
+  if s == "1" then some true else if s == "0" then some false else none
+
+def showRaw (rc : RawControl) : String :=
+  s!"oid={hexOf rc.ctype} crit={showBit rc.crit} val={showOptHex rc.val}"
+
+def showExop (e : Exop) : String := s!"name={showOptHex e.name} val={showOptHex e.val}"
+
+def showOutcome {α : Type} (f : α → String) : Outcome α → String
+  | .ok v => f v
+  | .panic => "panic"
+
+def words (s : String) : List String := (s.splitOn " ").filter (· ≠ "")
+
+def unhexAll : List String → Option (List Bytes)
+  | [] => some []
+  | s :: ss => match unhex s, unhexAll ss with
+    | some b, some bs => some (b :: bs)
+    | _, _ => none
+
+def showHexList (l : List Bytes) : String := "[" ++ ",".intercalate (l.map hexOf) ++ "]"
+
+def optTlv (s : String) : Option (Option Tlv) :=
+  if s.trimAscii.toString == "none" then some none else (parseTlv s).map some
+
+def encControl (name rest : String) : Option (Outcome RawControl) :=
+  let ws := words rest
+  match name, ws with
+  | "paged", [sz, ck] =>
+    match parseInt sz, unhex ck with
+    | some n, some c => some (.ok (encPagedResults ⟨n, c⟩))
+    | _, _ => none
+  | "syncreq", [m, ck, h] =>
+    let mode := if m == "1" then some RefreshMode.refreshOnly
+      else if m == "3" then some RefreshMode.refreshAndPersist else none
+    match mode, optHex ck, bitOf h with
+    | some mode, some c, some h => some (.ok (encSyncRequest ⟨mode, c, h⟩))
+    | _, _, _ => none
+  | "preread", _ => (unhexAll ws).map fun l => .ok (encPreRead l)
+  | "postread", _ => (unhexAll ws).map fun l => .ok (encPostRead l)
+  | "assertion", _ => (optTlv rest).map encAssertion
+  | "matchedvalues", _ => (optTlv rest).map encMatchedValues
+  | "proxyauth", [a] => (unhex a).map fun b => .ok (encProxyAuth b)
+  | "txnspec", [a] => (unhex a).map fun b => .ok (encTxnSpec b)
+  | "managedsait", [] => some (.ok encManageDsaIt)
+  | "relaxrules", [] => some (.ok encRelaxRules)
+  | _, _ => none
+
+def encExop (name rest : String) : Option Exop :=
+  match name, words rest with
+  | "whoami", [] => some encWhoAmI
+  | "starttls", [] => some encStartTLS
+  | "starttxn", [] => some encStartTxn
+  | "passmod", [u, o, n] =>
+    match optHex u, optHex o, optHex n with
+    | some u, some o, some n => some (encPasswordModify ⟨u, o, n⟩)
+    | _, _, _ => none
+  | "endtxn", [i, c] =>
+    match unhex i, bitOf c with
+    | some i, some c => some (encEndTxn ⟨i, c⟩)
+    | _, _ => none
+  | _, _ => none
+
+def stateWord : EntryState → String
+  | .present => "present" | .add => "add" | .modify => "modify" | .delete => "delete"
+
+/-- canonical form of the HashSet: sorted, without duplicates -/
+def canonSet (l : List Bytes) : List String :=
+  let sorted := (l.map hexOf).mergeSort (fun a b => a < b || a == b)
+  sorted.foldr (fun x acc => match acc with
+    | y :: _ => if x == y then acc else x :: acc
+    | [] => [x]) []
+
+def showSyncInfo : SyncInfo → String
+  | .newCookie c => s!"newcookie {hexOf c}"
+  | .refreshDelete c d => s!"refreshdelete cookie={showOptHex c} done={showBit d}"
+  | .refreshPresent c d => s!"refreshpresent cookie={showOptHex c} done={showBit d}"
+  | .syncIdSet c d us => s!"syncidset cookie={showOptHex c} rd={showBit d} uuids=[{",".intercalate (canonSet us)}]"
+
+def knownWord : Option ControlType → String
+  | none => "-"
+  | some .pagedResults => "paged"
+  | some .postReadResp => "postread"
+  | some .preReadResp => "preread"
+  | some .syncDone => "syncdone"
+  | some .syncState => "syncstate"
+  | some .manageDsaIt => "managedsait"
+  | some .matchedValues => "matchedvalues"
+
+def showControl (c : Control) : String :=
+  s!"{knownWord c.known} {hexOf c.raw.ctype} {showBit c.raw.crit} {showOptHex c.raw.val}"
+
+def showControls (cs : List Control) : String := "[" ++ ";".intercalate (cs.map showControl) ++ "]"
+
+def showEndTxnResp (r : EndTxnResp) : String :=
+  let mid := match r.msgId with | none => "none" | some n => toString n
+  let upds := match r.updsCtrls with
+    | none => "none"
+    | some ps => "[" ++ ",".intercalate (ps.map fun (p : Int × List Control) => s!"{p.1}:{showControls p.2}") ++ "]"
+  s!"msg_id={mid} upds={upds}"
+
+def parseCtl (name : String) (val : Option Bytes) : Option String :=
+  match name with
+  | "paged" => some (showOutcome (fun (v : PagedResults) => s!"size={v.size} cookie={hexOf v.cookie}")
+      (parseVal parsePagedResults val))
+  | "syncstate" => some (showOutcome (fun (v : SyncState) =>
+      s!"state={stateWord v.state} uuid={hexOf v.entryUuid} cookie={showOptHex v.cookie}")
+      (parseVal parseSyncState val))
+  | "syncdone" => some (showOutcome (fun (v : SyncDone) =>
+      s!"cookie={showOptHex v.cookie} rd={showBit v.refreshDeletes}") (parseVal parseSyncDone val))
+  | "readentry" => some (showOutcome (fun t => s!"ok {showTlv t}") (parseVal parseReadEntryOuter val))
+  | _ => none
+
+def parseExop (name : String) (val : Option Bytes) : Option String :=
+  match name with
+  | "whoami" => some (showOutcome (fun v => s!"authzid={hexOf v}") (parseVal parseWhoAmIResp val))
+  | "starttxn" => some (showOutcome (fun v => s!"txn_id={hexOf v}") (parseVal parseStartTxnResp val))
+  | "passmod" => some (showOutcome (fun v => s!"gen_pass={hexOf v}") (parseVal parsePasswordModifyResp val))
+  | "endtxn" => some (showOutcome showEndTxnResp (parseVal parseEndTxnResp val))
+  | _ => none
+
+def showOpt {α : Type} (f : α → String) : Option α → String
+  | none => "none"
+  | some v => f v
+
+def specDec (name : String) (val : Option Bytes) : Option String :=
+  match name with
+  | "paged" => some (showOpt (fun (v : PagedResults) => s!"size={v.size} cookie={hexOf v.cookie}") (Spec.decPaged val))
+  | "syncreq" => some (showOpt (fun (v : SyncRequest) =>
+      s!"mode={v.mode.toInt} cookie={showOptHex v.cookie} hint={showBit v.reloadHint}") (Spec.decSyncReq val))
+  | "preread" | "postread" => some (showOpt (fun l => s!"attrs={showHexList l}") (Spec.decAttrSel val))
+  | "assertion" => some (showOpt showTlv (Spec.decAssertion val))
+  | "matchedvalues" => some (showOpt showTlv (Spec.decMatchedValues val))
+  | "proxyauth" | "txnspec" => some (showOpt (fun b => s!"octets={hexOf b}") (Spec.decOctets val))
+  | "managedsait" | "relaxrules" | "whoami" | "starttls" | "starttxn" =>
+      some (showOpt (fun _ => "absent") (Spec.decAbsent val))
+  | "passmod" => some (showOpt (fun (v : PasswordModify) =>
+      s!"user={showOptHex v.userId} old={showOptHex v.oldPass} new={showOptHex v.newPass}") (Spec.decPassMod val))
+  | "endtxn" => some (showOpt (fun (v : EndTxn) => s!"id={hexOf v.txnId} commit={showBit v.commit}") (Spec.decEndTxn val))
+  | _ => none
 
 /-- line-protocol handler for the `Codecs` family of commands; `none` = not mine -/
 def handleCodecs (cmd arg : String) : Option String :=
+  let bad := "bad-request"
   match cmd with
+  | "ctl.enc" =>
+    let (name, rest) := splitCmd arg
+    let r := if name == "critical" then
+        let (n2, r2) := splitCmd rest
+        (encControl n2 r2).map fun o => match o with
+          | .ok rc => Outcome.ok (critical rc)
+          | .panic => .panic
+      else encControl name rest
+    some ((r.map (showOutcome showRaw)).getD bad)
+  | "ctl.parse" =>
+    let (name, rest) := splitCmd arg
+    if name == "syncinfo" then
+      some (((parseTlv rest).map fun t => showOutcome showSyncInfo (parseSyncInfo t)).getD bad)
+    else some (((optHex rest).bind (parseCtl name)).getD bad)
+  | "ctl.build" =>
+    match words arg with
+    | [o, c, v] =>
+      match unhex o, bitOf c, optHex v with
+      | some o, some c, some v => some (showTlv (buildControl ⟨o, c, v⟩))
+      | _, _, _ => some bad
+    | _ => some bad
+  | "ctls.parse" =>
+    some (((parseTlv arg).map fun t => match parseControls t with
+      | none => "none"
+      | some cs => showControls cs).getD bad)
+  | "exop.enc" =>
+    let (name, rest) := splitCmd arg
+    some (((encExop name rest).map showExop).getD bad)
+  | "exop.parse" =>
+    let (name, rest) := splitCmd arg
+    some (((optHex rest).bind (parseExop name)).getD bad)
+  | "exop.construct" =>
+    match words arg with
+    | [n, v] =>
+      match optHex n, optHex v with
+      | some n, some v => some (showOutcome
+          (fun ts => " ".intercalate (ts.map fun t => showTlv t.toTlv)) (constructExop ⟨n, v⟩))
+      | _, _ => some bad
+    | _ => some bad
+  | "spec.ctl.dec" | "spec.exop.dec" =>
+    let (name, rest) := splitCmd arg
+    some (((optHex rest).bind (specDec name)).getD bad)
   | _ => none
 
 end Ldap3V.Driver
